@@ -158,6 +158,65 @@ def sanitizer_of(mask, base_text):
     return False
 
 
+def flip_axis(x, ax):
+    """x reversed along axis `ax` (int): toggles the axis name in the `flipped` facet."""
+    if x.axes is None or not isinstance(ax, int) or not -len(x.axes) <= ax < len(x.axes):
+        return x.w(flipped=None, filled=None, idxtable=None, runmax=None)
+    name = x.axes[ax]
+    cur = set(x.flipped or ())
+    cur ^= {name}
+    return x.w(flipped=frozenset(cur) if cur else None)
+
+
+def opnodes(node):
+    """(left, right) operand nodes of a binary operation written as operator, augmented assignment, comparison or two-argument call."""
+    if isinstance(node, ast.BinOp):
+        return node.left, node.right
+    if isinstance(node, ast.AugAssign):
+        return node.target, node.value
+    if isinstance(node, ast.Compare) and len(node.comparators) == 1:
+        return node.left, node.comparators[0]
+    if isinstance(node, ast.Call) and len(node.args) >= 2:
+        return node.args[0], node.args[1]
+    return None, None
+
+
+_FLIP = {'<': '>', '<=': '>=', '>': '<', '>=': '<=', '==': '==', '!=': '!='}
+
+
+def norm_cmp(cmp):
+    """Comparison with its constant operand on the right: (op, value, constant, text of value) or None."""
+    if cmp is None:
+        return None
+    o, l, r, lt, rt = cmp
+    if has_const(r) and not has_const(l):
+        return o, l, r, lt
+    if has_const(l) and not has_const(r) and o in _FLIP:
+        return _FLIP[o], r, l, rt
+    return None
+
+
+def is_zero_fill(v):
+    """A scalar 0 or an array allocated as zeros."""
+    if v is None:
+        return False
+    if has_const(v):
+        try:
+            return cval(v) == 0 and not isinstance(cval(v), bool)
+        except Exception:
+            return False
+    return v.alloc in ('zeros', 'zeros_like') or (v.fill is not None and has_const(v.fill) and cval(v.fill) == 0 and v.alloc in ('full', 'full_like'))
+
+
+def closes_wrap(cmp, target_text):
+    """x == 1 / x >= 1 (either operand order) on the value whose text is target_text."""
+    nc = norm_cmp(cmp)
+    if nc is None:
+        return False
+    o, v, c, vt = nc
+    return o in ('==', '>=') and vt == target_text and cval(c) == 1
+
+
 class NumpyModel:
     # ------------------------------------------------------------------ operators
     def binop(self, interp, st, op, l, r, node):
@@ -188,8 +247,8 @@ class NumpyModel:
         if l.ty == 'FloatWithUnit' or r.ty == 'FloatWithUnit':
             ty = 'float'
         out = AV(ty=ty, deps=d)
-        rtext = norm_text(node.right if isinstance(node, ast.BinOp) else node.value) if isinstance(node, (ast.BinOp, ast.AugAssign)) else None
-        ltext = norm_text(node.left if isinstance(node, ast.BinOp) else node.target) if isinstance(node, (ast.BinOp, ast.AugAssign)) else None
+        ln, rn = opnodes(node)
+        ltext, rtext = interp.sx(ln), interp.sx(rn)
         out = out.w(bin=(o, l, r, ltext, rtext))
         g = self.geo_binop(interp, o, l, r, node)
         out = out.w(geo=g)
@@ -426,7 +485,7 @@ class NumpyModel:
                 return g
             if g[0] == 'FOLD' and o == '*':
                 # np.mod(x, 1 / s) * s : supercell folding back onto the closed unit interval
-                otext = norm_text(node.right if other is r else node.left) if isinstance(node, ast.BinOp) else None
+                otext = interp.sx(node.right if other is r else node.left) if isinstance(node, ast.BinOp) else None
                 if otext is not None and g[2] in (f'1 / {otext}', f'1.0 / {otext}'):
                     interp.emit('fold', node, ok=True, divisor=g[2], factor=otext)
                     return ('FRAC', 'C')
@@ -468,9 +527,9 @@ class NumpyModel:
         if gl[0] in ('FRAC',):
             rt = None
             if isinstance(node, ast.BinOp):
-                rt = norm_text(node.right)
+                rt = interp.sx(node.right)
             elif isinstance(node, ast.Call) and len(node.args) > 1:
-                rt = norm_text(node.args[1])
+                rt = interp.sx(node.args[1])
             return ('FOLD', gl, rt)
         return None
 
@@ -577,8 +636,8 @@ class NumpyModel:
                 if o == 'not in' and isinstance(cval(r), (tuple, list)) and l.valset <= set(cval(r)):
                     return const(False)
             is_arr = (l.ty in ('ndarray', 'Series', 'DataFrame') or r.ty in ('ndarray', 'Series', 'DataFrame')) and o not in ('is', 'is not', 'in', 'not in')
-            ltext = norm_text(node.left) if isinstance(node, ast.Compare) else None
-            rtext = norm_text(node.comparators[0]) if isinstance(node, ast.Compare) else None
+            ln, rn = opnodes(node)
+            ltext, rtext = interp.sx(ln), interp.sx(rn)
             ml, mr = mono_of(l), mono_of(r)
             if o in ('<', '<=', '>', '>=', '==', '!=') and ml is not None and mr is not None:
                 if ml.deg != mr.deg and ml.coef != 0 and mr.coef != 0:
@@ -596,11 +655,8 @@ class NumpyModel:
     def apply_imgcorr(self, interp, o, l, r, node, out):
         base, corr = (l, r) if r.imgcorr is not None else (r, l)
         kind, diff = corr.imgcorr
-        btxt = None
-        if isinstance(node, ast.BinOp):
-            btxt = norm_text(node.left if corr is r else node.right)
-        elif isinstance(node, ast.AugAssign):
-            btxt = norm_text(node.target)
+        ln, rn = opnodes(node)
+        btxt = interp.sx(ln if (corr is r or isinstance(node, ast.AugAssign)) else rn)
         stxt = corr.intpart_of[0] if corr.intpart_of else None
         if kind == 'round' and btxt is not None and stxt is not None and not (stxt == btxt or stxt.startswith(btxt + ' - ')):
             # the integer part was computed from a different array (e.g. one frame only): not a reduction of this value
@@ -711,18 +767,67 @@ class NumpyModel:
             if it.ty in ('ndarray', 'list') or it.dtype == 'bool':
                 fancy = True
         out = base.only('ty', 'geo', 'idx', 'mono', 'prov', 'store', 'cols', 'colvals', 'taint', 'dtype', 'enc', 'origin', 'fft', 'mono_unknown')
+        # column / row selection of a table whose columns (rows) carry their own kinds: t[:, k], t[..., k], t.T[k]
+        def _full(i):
+            return (i.ty == 'slice' and i.lo is None and i.hi is None and i.step is None) or (has_const(i) and cval(i) is Ellipsis)
+
+        def _pick(table, sel):
+            if has_const(sel) and isinstance(cval(sel), int) and not isinstance(cval(sel), bool) and -len(table) <= cval(sel) < len(table):
+                return table[cval(sel)]
+            if sel.ty == 'slice' and all(x is None or (has_const(x) and isinstance(cval(x), int)) for x in (sel.lo, sel.hi, sel.step)):
+                return list(table[slice(*(cval(x) if x is not None else None for x in (sel.lo, sel.hi, sel.step)))])
+            if sel.elts is not None and all(has_const(x) and isinstance(cval(x), int) and -len(table) <= cval(x) < len(table) for x in sel.elts):
+                return [table[cval(x)] for x in sel.elts]
+            return None
+
+        def _as_column(o, c):
+            return o.w(colvals=None, idx=c.idx, at=c.at, geo=c.geo, mono=c.mono, taint=c.taint, searched=c.searched, inner=c.inner, role=c.role)
+
+        if base.colvals is not None and len(items) >= 2:
+            got = _pick(base.colvals, items[-1]) if (len(items) == 2 and _full(items[0])) else None
+            out = _as_column(out, got) if isinstance(got, AV) else out.w(colvals=got)
+        if base.rows is not None and items and all(_full(i) for i in items[1:]):
+            got = _pick(base.rows, items[0])
+            if isinstance(got, AV):
+                out = _as_column(out, got)
+            elif got is not None:
+                out = out.w(rows=got)
         if all(i.ty == 'slice' for i in items):
             out = out.w(linspace=base.linspace, lin_n=base.lin_n, arange=base.arange, sorted=base.sorted)
             if base.counts_of is not None or base.unique_of is not None:
                 trivial = all(i.lo is None and i.hi is None for i in items)
                 out = out.w(counts_of=base.counts_of, unique_of=base.unique_of, positional_slice=None if trivial else True)
         out = out.w(axes=new_axes, axis=axis_tag, at=base.at if (base.idx is not None and base.idx[0] == 'FRAME') else None)
+        # offset views along the leading axis: x[k:] (element j is x[j + k]) and x[:-k] (element j is x[j])
+        if items and items[0].ty == 'slice' and all(_full(i) for i in items[1:]) and isinstance(node, ast.Subscript):
+            sl = items[0]
+            lo = 0 if sl.lo is None else (cval(sl.lo) if has_const(sl.lo) and isinstance(cval(sl.lo), int) else None)
+            hi_ok = sl.hi is None or (has_const(sl.hi) and isinstance(cval(sl.hi), int) and cval(sl.hi) < 0)
+            if lo is not None and lo >= 0 and hi_ok and sl.step is None and not (lo == 0 and sl.hi is None):
+                prev = base.shifted
+                out = out.w(shifted=(lo + (prev[0] if prev else 0), prev[1] if prev else interp.sx(node.value),
+                                     axes[0] if axes else None, -cval(sl.hi) if sl.hi is not None else 0))
         if len(items) == 1 and items[0].dtype == 'bool' and (base.counts_of is not None or base.unique_of is not None):
             out = out.w(counts_of=base.counts_of, unique_of=base.unique_of)  # value-based selection of unique() output
         n_fancy = sum(1 for it in items if it.ty in ('ndarray', 'list') and it.dtype != 'bool')
         if n_fancy >= 2:
             # a[[i, j], [k, l]] pairs the index lists element by element (a[i, k], a[j, l]); it is not the block a[i..j, k..l]
             out = out.w(zipped_fancy=True)
+            # a[arange(n_rows)[:, None], last_valid_position]: every entry replaced by the most recent valid entry of its row
+            if len(items) == 2 and items[1].runmax and items[1].idxtable is not None and axes is not None and len(axes) == 2 \
+                    and isinstance(node, ast.Subscript):
+                t = items[1].idxtable
+                rows_ = items[0]
+                rows_ok = rows_.axes is not None and len(rows_.axes) == 2 and rows_.axes[1] == 'new' and rows_.mono is not None \
+                    and f'n_{axes[0]}' in rows_.mono.text()
+                if t['src'] == interp.sx(node.value) and t['axis'] == axes[1] and rows_ok:
+                    out = out.w(axes=axes, flipped=base.flipped,
+                                filled=dict(marker=t['marker'], axis=t['axis'], store=t['store'], inflip=bool(t['flipped'] and t['axis'] in t['flipped'])))
+        # x[:, ::-1] / x[::-1]: reversal along one axis
+        if axes is not None and new_axes is not None and len(new_axes) == len(axes):
+            for k_, it_ in enumerate(items):
+                if it_.ty == 'slice' and it_.lo is None and it_.hi is None and it_.step is not None and has_const(it_.step) and cval(it_.step) == -1:
+                    out = flip_axis(out.w(flipped=out.flipped if out.flipped is not None else base.flipped, filled=out.filled or base.filled), k_)
         if fancy:
             out = out.w(store='fresh', fresh=True, prov=None)
         else:
@@ -735,7 +840,7 @@ class NumpyModel:
             if it.idx is not None and it.idx[0] == 'FRAME':
                 out = out.w(at=it.at if it.at is not None else 0, by_frame=True)
         # NOSITE sanitiser: x[(x != NOSITE)...] / x[x >= 0]
-        btext = norm_text(node.value) if isinstance(node, ast.Subscript) else None
+        btext = interp.sx(node.value) if isinstance(node, ast.Subscript) else None
         for it in items:
             if sanitizer_of(it, btext):
                 if out.idx is not None and out.idx[0] == 'SITE':
@@ -787,9 +892,7 @@ class NumpyModel:
         name = tv.id if isinstance(tv, ast.Name) else None
         if base.ty == 'ndarray':
             # closer idiom: x[x == 1] = 0 / x[x >= 1] = 0 on a closed wrap
-            if (not aug and base.geo == ('FRAC', 'C') and idx.cmp is not None and idx.cmp[0] in ('==', '>=')
-                    and idx.cmp[3] == norm_text(tv) and has_const(idx.cmp[2]) and cval(idx.cmp[2]) == 1
-                    and has_const(value) and cval(value) == 0):
+            if not aug and base.geo == ('FRAC', 'C') and closes_wrap(idx.cmp, interp.sx(tv)) and is_zero_fill(value):
                 new = base.w(geo=('FRAC', 'W'))
                 self.rebind(interp, st, frame, tv, new)
                 return
